@@ -1,0 +1,201 @@
+//! Read/inject access to the private fields of `BenchContext` for the
+//! verification harness (feature `divan_verif`).
+
+use crate::{
+    counter::{AnyCounter, KnownCounterKind},
+    stats::TimeSample,
+    time::FineDuration,
+    verif::api::{info_of, BenchReport, Tally},
+};
+
+use super::BenchContext;
+
+pub(crate) fn report(context: &BenchContext<'_>) -> BenchReport {
+    let mut allocs: Vec<(u32, Tally)> = context
+        .samples
+        .alloc_info_by_sample
+        .iter()
+        .map(|(index, info)| (*index, Tally::of(info)))
+        .collect();
+    allocs.sort_by_key(|(index, _)| *index);
+
+    BenchReport {
+        did_run: context.did_run,
+        thread_count: context.thread_count.get(),
+        sample_size: context.samples.sample_size,
+        durations: context
+            .samples
+            .time_samples
+            .iter()
+            .map(|s| s.duration.picos)
+            .collect(),
+        allocs,
+        counts: KnownCounterKind::ALL.map(|kind| {
+            context.counters.counts(kind).iter().map(|c| *c as u64).collect()
+        }),
+        input_counted: KnownCounterKind::ALL
+            .map(|kind| context.counters.uses_input_counts(kind)),
+        stats: None,
+    }
+}
+
+pub(crate) fn inject(
+    context: &mut BenchContext<'_>,
+    sample_size: u32,
+    durations: &[u128],
+    allocs: &[(u32, Tally)],
+    counts: &[Vec<u64>; 4],
+    input_counted: [bool; 4],
+) {
+    context.did_run = true;
+    context.samples.sample_size = sample_size;
+    context.samples.time_samples = durations
+        .iter()
+        .map(|&picos| TimeSample { duration: FineDuration { picos } })
+        .collect();
+    context.samples.alloc_info_by_sample =
+        allocs.iter().map(|(index, t)| (*index, info_of(t))).collect();
+
+    for (i, kind) in KnownCounterKind::ALL.into_iter().enumerate() {
+        if input_counted[i] {
+            // Same registration path as `Bencher::input_counter`.
+            match kind {
+                KnownCounterKind::Bytes => context
+                    .counters
+                    .set_input_counter(|_: &()| crate::counter::BytesCount::new(0u64)),
+                KnownCounterKind::Chars => context
+                    .counters
+                    .set_input_counter(|_: &()| crate::counter::CharsCount::new(0u64)),
+                KnownCounterKind::Cycles => context
+                    .counters
+                    .set_input_counter(|_: &()| crate::counter::CyclesCount::new(0u64)),
+                KnownCounterKind::Items => context
+                    .counters
+                    .set_input_counter(|_: &()| crate::counter::ItemsCount::new(0u64)),
+            }
+            for &c in &counts[i] {
+                context.counters.push_counter(AnyCounter::known(kind, c as _));
+            }
+        } else if let Some(&c) = counts[i].first() {
+            context.counters.set_counter(AnyCounter::known(kind, c as _));
+        }
+    }
+}
+
+// ------------------------------------------------------------------ events
+
+use crate::{
+    alloc::ThreadAllocInfo,
+    stats::{RawSample, SampleCollection},
+    time::TimedOverhead,
+    verif::{event, Ev},
+};
+
+use super::BenchMode;
+
+/// Values above this are logged as `-1` ("huge") so that every number in a
+/// loop trace fits TLC's 32-bit integers.
+const HUGE: u128 = 2_000_000_000;
+
+fn clamp(v: u128) -> i128 {
+    if v > HUGE {
+        -1
+    } else {
+        v as i128
+    }
+}
+
+fn mode_name(mode: BenchMode) -> &'static str {
+    match mode {
+        BenchMode::Test => "test",
+        BenchMode::Tune { .. } => "tune",
+        BenchMode::Collect { .. } => "collect",
+    }
+}
+
+fn rem(rem_samples: Option<u32>) -> i128 {
+    rem_samples.map(|r| r as i128).unwrap_or(-1)
+}
+
+pub(crate) fn loop_begin(
+    mode: BenchMode,
+    rem_samples: Option<u32>,
+    precision: FineDuration,
+    min_picos: u128,
+    max_picos: u128,
+    skip_ext_time: bool,
+    thread_count: usize,
+    overheads: &TimedOverhead,
+) {
+    event(
+        Ev::new("loop_begin")
+            .s("mode", mode_name(mode))
+            .u("size", mode.sample_size() as u128)
+            .i("rem", rem(rem_samples))
+            .i("precision", clamp(precision.picos))
+            .i("min", clamp(min_picos))
+            .i("max", clamp(max_picos))
+            .b("skip", skip_ext_time)
+            .u("threads", thread_count as u128)
+            .raw(
+                "overheads",
+                &format!(
+                    "[{},{},{},{}]",
+                    clamp(overheads.sample_loop.picos),
+                    clamp(overheads.tally_alloc.picos),
+                    clamp(overheads.tally_dealloc.picos),
+                    clamp(overheads.tally_realloc.picos)
+                ),
+            ),
+    );
+}
+
+pub(crate) fn initial_start(taken: bool) {
+    event(Ev::new("initial_start").b("taken", taken));
+}
+
+pub(crate) fn test_break() {
+    event(Ev::new("test_break"));
+}
+
+pub(crate) fn tally_clear() {
+    event(Ev::new("tally_clear"));
+}
+
+pub(crate) fn tally_snapshot(info: &ThreadAllocInfo) {
+    event(Ev::new("tally_snapshot").raw("info", &Tally::of(info).json()));
+}
+
+pub(crate) fn round_end(
+    mode: BenchMode,
+    rem_samples: Option<u32>,
+    elapsed_picos: u128,
+    samples: &SampleCollection,
+    raw_samples: &[RawSample],
+) {
+    let stored: Vec<i128> = samples
+        .time_samples
+        .iter()
+        .rev()
+        .take(raw_samples.len())
+        .rev()
+        .map(|s| clamp(s.duration.picos))
+        .collect();
+    let stored = stored
+        .iter()
+        .map(|v| v.to_string())
+        .collect::<Vec<_>>()
+        .join(",");
+
+    event(
+        Ev::new("round_end")
+            .s("mode", mode_name(mode))
+            .u("size", mode.sample_size() as u128)
+            .i("rem", rem(rem_samples))
+            .i("elapsed", clamp(elapsed_picos))
+            .u("nsamples", samples.time_samples.len() as u128)
+            .u("nalloc", samples.alloc_info_by_sample.len() as u128)
+            .u("stored_size", samples.sample_size as u128)
+            .raw("stored", &format!("[{stored}]")),
+    );
+}
